@@ -50,6 +50,15 @@ def fmt_ts(t):
     return "%d.%09d" % (t // 10**9, t % 10**9)
 
 
+def fmt_dur(ns):
+    """a duration as uftrace's parse_time() takes it (at most three digits before the decimal point)"""
+    if ns < 1000:
+        return "%dns" % ns
+    if ns < 1000000:
+        return "%d.%03dus" % (ns // 1000, ns % 1000)
+    return "%d.%06dms" % (ns // 1000000, ns % 1000000)
+
+
 def cli_opts(cfg):
     o = []
     for k, tr in sorted(cfg.get("trig", {}).items()):
@@ -62,7 +71,7 @@ def cli_opts(cfg):
         if tr.get("depth") is not None:
             acts.append("depth=%d" % tr["depth"])
         if tr.get("time") is not None:
-            acts.append("time=%dns" % tr["time"])
+            acts.append("time=%s" % fmt_dur(tr["time"]))
         if tr.get("trace_on"):
             acts.append("trace_on")
         if tr.get("trace_off"):
@@ -78,13 +87,29 @@ def cli_opts(cfg):
     if cfg.get("depth") is not None:
         o += ["-D", str(cfg["depth"])]
     if cfg.get("threshold"):
-        o += ["-t", "%dns" % cfg["threshold"]]
+        o += ["-t", fmt_dur(cfg["threshold"])]
     a, b = cfg.get("range", (0, 0))
-    if a or b:
+    if (a or b) and cfg.get("range_first") is not None:
+        # elapsed form: offsets from the first timestamp of the recording (`-r 100ns~2us`)
+        first = cfg["range_first"]
+        o += ["-r", "%s~%s" % (fmt_dur(a - first) if a else "", fmt_dur(b - first) if b else "")]
+    elif a or b:
         o += ["-r", "%s~%s" % (fmt_ts(a) if a else "", fmt_ts(b) if b else "")]
+    for k, v in sorted(cfg.get("loc", {}).items()):
+        o += ["-L", src_file(k) + ("" if v else "@hide")]
+    if cfg.get("zsize"):
+        o += ["-Z", str(cfg["zsize"])]
+    for k, z in sorted(cfg.get("ztrig", {}).items()):
+        o += ["-T", "%s@size=%d" % (NAMES[k], z)]
+    for k, act in cfg.get("decor", []):          # presentation-only trigger actions: must not change the selection
+        o += ["-T", "%s@%s" % (NAMES[k], act)]
     if not cfg.get("libcall", True):
         o += ["--no-libcall"]
     return o
+
+
+def src_file(k):
+    return "u%d.c" % k
 
 
 def coq_opt(v, z=False):
@@ -109,11 +134,12 @@ def coq_cfg(cfg, no_merge=False):
     fm = any(t.get("filter") is True for t in trig.values())
     cl = any(t.get("caller") for t in trig.values())
     a, b = cfg.get("range", (0, 0))
-    return "(mkcfg [%s] %s %s (%d)%%Z (%d)%%N (%d)%%N (%d)%%N [%s] %s %s)" % (
+    return "(mkcfgL [%s] %s %s (%d)%%Z (%d)%%N (%d)%%N (%d)%%N [%s] %s %s [%s])" % (
         "; ".join("((%d)%%N, %s)" % (k, coq_rtrig(t)) for k, t in sorted(trig.items())),
         coq.coq_bool(fm), coq.coq_bool(cl), cfg["depth"] if cfg.get("depth") is not None else 1024,
         cfg.get("threshold") or 0, a, b, "; ".join("(%d)%%N" % k for k in cfg.get("plt", [])),
-        coq.coq_bool(cfg.get("libcall", True)), coq.coq_bool(no_merge))
+        coq.coq_bool(cfg.get("libcall", True)), coq.coq_bool(no_merge),
+        "; ".join("((%d)%%N, %s)" % (k, coq.coq_bool(v)) for k, v in sorted(cfg.get("loc", {}).items())))
 
 
 def coq_call(c):
@@ -127,7 +153,11 @@ def coq_forest(f):
 # ---------------------------------------------------------------- data directory
 def syms_for(cfg):
     plt = set(cfg.get("plt", []))
-    return [(0x1000 + 0x100 * i, 0x80, "P" if i in plt else "T", NAMES[i]) for i in range(NFUN)]
+    # `_start` is in every real symbol table; uftrace graph -D hangs its synthetic depth trigger on it (without it the
+    # trigger matches nothing, setup_fstack_filters() gives up and the later -C/-H/-L options are dropped)
+    sizes = cfg.get("sizes", {})
+    return [(0x1000 + 0x100 * i, sizes.get(i, 0x80), "P" if i in plt else "T", NAMES[i]) for i in range(NFUN)] + [
+        (0x1000 + 0x100 * (NFUN + 2), 0x40, "T", "_start")]
 
 
 def addr_of(k):
@@ -138,6 +168,14 @@ def write_dir(d, cfg, recs):
     if os.path.exists(d):
         shutil.rmtree(d)
     datadir.write({"syms": syms_for(cfg), "base": BASE, "tasks": [{"tid": TID, "pid": TID, "recs": recs}]}, d)
+    write_dbg(d, cfg)
+
+
+def write_dbg(d, cfg):
+    """debug info of the data directory (as `record --srcline` saves it): every function in its own source file"""
+    with open(os.path.join(d, "prog.dbg"), "w") as f:
+        for i, (a, sz, t, n) in enumerate(syms_for(cfg)[:NFUN]):
+            f.write("F: %x %s\nL: %d %s\n" % (a, n, 10 + i, src_file(i)))
 
 
 FN = {n: i for i, n in enumerate(NAMES)}
@@ -158,6 +196,7 @@ def fn_of(name):
 RE_OPEN = re.compile(r"^( *)([\w<>]+)\(\) \{$")
 RE_LEAF = re.compile(r"^( *)([\w<>]+)\(\);$")
 RE_CLOSE = re.compile(r"^( *)\} /\* ([\w<>]+) \*/$")
+RE_BACKTRACE = re.compile(r"^\s*/\* \[\s*\d+\] [\w<>]+ \*/$")
 
 
 def parse_replay(out):
@@ -167,6 +206,8 @@ def parse_replay(out):
             continue
         if l.startswith("uftrace stopped tracing"):
             break
+        if RE_BACKTRACE.match(l):            # -T f@backtrace: the stack of the next line's call
+            continue
         m = RE_OPEN.match(l)
         if m:
             ev.append((False, fn_of(m.group(2)), len(m.group(1)) // 2))
@@ -286,7 +327,21 @@ def parse_graph(out):
 
 
 # ---------------------------------------------------------------- running the real commands
-COMMANDS = ["replay", "nomerge", "script", "raw", "chrome", "report", "graph"]
+COMMANDS = ["replay", "nomerge", "script", "raw", "chrome", "report", "graph", "flame"]
+
+
+def parse_flame(out):
+    """dump --flame-graph: `main;alpha;beta 2` per call path, in the order of the tree -> (depth, fn, count)"""
+    res = []
+    for l in out.splitlines():
+        if not l.strip():
+            continue
+        m = re.match(r"^([\w<>;]+) (\d+)$", l)
+        if not m:
+            raise ParseError("flame-graph line not understood: %r" % l)
+        path = m.group(1).split(";")
+        res.append((len(path) - 1, fn_of(path[-1]), int(m.group(2))))
+    return res
 
 
 def run_commands(objdir, d, cfg, script_path, which=COMMANDS):
@@ -312,6 +367,8 @@ def run_commands(objdir, d, cfg, script_path, which=COMMANDS):
         res["report"] = parse_report(run("report", o))
     if "graph" in which:
         res["graph"] = parse_graph(run("graph", o))
+    if "flame" in which:
+        res["flame"] = parse_flame(run("dump", ["--flame-graph"] + o))
     return res
 
 
@@ -354,12 +411,13 @@ def coq_tri(l):
 def case_term(case):
     o = case["out"]
     return ("{| k_cfg := %s; k_forest := %s; k_nfun := %d;\n   o_replay := %s;\n   o_nomerge := %s;\n   o_script := %s;\n"
-            "   o_raw := %s;\n   o_chrome := %s;\n   o_report := %s;\n   o_graph := %s |}") % (
+            "   o_raw := %s;\n   o_chrome := %s;\n   o_report := %s;\n   o_graph := %s;\n   o_flame := %s |}") % (
         coq_cfg(case["cfg"]), coq_forest(case["forest"]), NFUN, coq_nd(o["replay"]), coq_nd(o["nomerge"]),
-        coq_nd(o["script"]), coq_rt(o["raw"]), coq_nt(o["chrome"]), coq_nl(o["report"]), coq_tri(o["graph"]))
+        coq_nd(o["script"]), coq_rt(o["raw"]), coq_nt(o["chrome"]), coq_nl(o["report"]), coq_tri(o["graph"]),
+        coq_tri(o["flame"]))
 
 
-EVALS = ["replay", "nomerge", "script", "raw", "chrome", "report", "graph"]
+EVALS = ["replay", "nomerge", "script", "raw", "chrome", "report", "graph", "flame"]
 
 
 def evaluate(ctx, cases, name="cases"):
@@ -481,6 +539,33 @@ def gen_case(rng, kind, eq=True):
             if t in cfg["range"]:
                 tags.append("range:end-on-timestamp")
                 break
+        lo, hi = cfg["range"]
+        if rng.random() < 0.4 and (not lo or lo > first) and (not hi or hi > first):
+            cfg["range_first"] = first        # same window, given as elapsed time
+            tags.append("range:elapsed")
+    if kind in ("loc", "lochide", "locmix"):
+        cfg["loc"] = {}
+        for _ in range(rng.choice([1, 2, 3])):
+            cfg["loc"][pick()] = (kind == "loc") or (kind == "locmix" and rng.random() < 0.6)
+        if kind == "locmix":
+            what = rng.choice(["depth", "filter", "deptrig", "switch", "time", "hide"])
+            tags.append("locmix:" + what)
+            if what == "depth":
+                cfg["depth"] = rng.choice([1, 2, 3])
+            elif what == "filter":
+                trig(pick())["filter"] = rng.choice([True, False])
+            elif what == "deptrig":
+                trig(rng.choice(sorted(cfg["loc"])))["depth"] = rng.choice([0, 1, 2])
+            elif what == "switch":
+                k0 = rng.choice(sorted(cfg["loc"]))
+                trig(k0)["trace_off"] = True
+                k1 = pick()
+                if k1 != k0:
+                    trig(k1)["trace_on"] = True
+            elif what == "time":
+                cfg["threshold"] = T
+            else:
+                trig(pick())["hide"] = True
     if kind in ("pltleaf", "plt"):
         cfg["libcall"] = False
         leafs = sorted(set(c.k for c in calls if not c.kids) - set(c.k for c in calls if c.kids))
@@ -494,6 +579,10 @@ def gen_case(rng, kind, eq=True):
             trig(pick())["filter"] = True
     # drop empty triggers
     cfg["trig"] = {k: v for k, v in cfg["trig"].items() if v}
+    if kind not in ("plt", "pltleaf") and rng.random() < 0.2:
+        cfg["decor"] = [(pick(), rng.choice(["backtrace", "color=red", "color=blue,backtrace"]))
+                        for _ in range(rng.choice([1, 2]))]
+        tags.append("decor-trigger")
     # boundary tags
     thr_vals = set([cfg.get("threshold") or None] + [t.get("time") for t in cfg["trig"].values()])
     thr_vals.discard(None)
@@ -524,7 +613,7 @@ def gen_case(rng, kind, eq=True):
 
 
 KINDS = ["plain", "depth", "filter", "notrace", "fn", "fd", "time", "timetrig", "caller", "caller_time", "hide",
-         "deptrig", "fdt", "mix", "mix2", "switch", "switch_f", "range", "range_only", "pltleaf", "plt"]
+         "deptrig", "fdt", "mix", "mix2", "switch", "switch_f", "range", "range_only", "loc", "lochide", "locmix", "pltleaf", "plt"]
 
 
 # ---------------------------------------------------------------- meta
@@ -577,6 +666,9 @@ def case_json(case):
 def cfg_json(cfg):
     j = dict(cfg)
     j["trig"] = {str(k): v for k, v in cfg.get("trig", {}).items()}
+    for key in ("loc", "loc_files", "sizes", "ztrig"):
+        if key in j:
+            j[key] = {str(k): v for k, v in j[key].items()}
     if "range" in j:
         j["range"] = list(j["range"])
     return j
@@ -587,6 +679,9 @@ def cfg_unjson(j):
     cfg["trig"] = {int(k): v for k, v in j.get("trig", {}).items()}
     if "range" in cfg:
         cfg["range"] = tuple(cfg["range"])
+    for key in ("loc", "loc_files", "sizes", "ztrig"):
+        if key in cfg:
+            cfg[key] = {int(k): v for k, v in cfg[key].items()}
     return cfg
 
 
@@ -642,6 +737,67 @@ def verdict1(ctx, cases, res):
                       {"line": 1, "correspondence": "C07.Model driver for %s vs the real command" % e,
                        "case": case_json(cases[idx[0]]), "outputs": cases[idx[0]]["out"]}, False)
     ctx.extra["disagreements_checked"] = ctx.extra.get("disagreements_checked", 0) + sum(len(v) for v in mm.values())
+
+
+# ---------------------------------------------------------------- line 5: the size filter (-Z, size=)
+KINDS_Z = ["plain", "plain", "depth", "filter", "notrace", "fn", "fd", "time", "timetrig", "caller", "hide", "deptrig", "mix"]
+Z_SIZES = [16, 32, 48, 64, 96, 128]
+
+
+def gen_zcase(rng, kind):
+    """options of `kind` plus symbol sizes, -Z and size= triggers"""
+    cfg, f, tags = gen_case(rng, kind)
+    cfg = dict(cfg)
+    used = sorted(set(c.k for c in fcalls(f)))
+    cfg["sizes"] = {k: rng.choice(Z_SIZES) for k in range(NFUN)}
+    cfg["zsize"] = rng.choice([0, 40, 40, 70, 100])
+    cfg["ztrig"] = {k: rng.choice([1, 20, 50, 80, 130]) for k in rng.sample(used, min(len(used), rng.choice([0, 0, 1, 2])))}
+    if not cfg["zsize"] and not cfg["ztrig"]:
+        cfg["zsize"] = 70
+    return cfg, f, ["size:" + kind, "size:-Z" if cfg["zsize"] else "size:trigger-only"] + (["size:size="] if cfg["ztrig"] else [])
+
+
+def corpus5():
+    """fixed defect kept as ordinary cases: the outermost function(s) hidden by the size filter made the first record
+    that gets through look like frames inherited at fork(), and report listed them as `<0>`"""
+    f = [C(0, 1000, 9000, [C(1, 1100, 3000, [C(2, 1200, 1900, [C(3, 1300, 1800)]), C(3, 2000, 2900)]), C(4, 5100, 6000)])]
+    sizes = {0: 16, 1: 32, 2: 96, 3: 128, 4: 96}
+    return [("corpus:size-outermost-hidden", {"trig": {}, "sizes": sizes, "zsize": 48, "ztrig": {}}, f,
+             ["corpus:size-outermost-hidden", "size:-Z"]),
+            ("corpus:size-outermost-hidden", {"trig": {}, "sizes": sizes, "zsize": 0, "ztrig": {0: 20, 1: 100}}, f,
+             ["corpus:size-outermost-hidden", "size:size="])]
+
+
+def zcase_term(c):
+    cfg = c["cfg"]
+    return "{| z_case := %s;\n   z_sizes := %s; z_zs := %d%%N; z_ztr := %s |}" % (
+        case_term(c), "[%s]" % "; ".join("(%d%%N, %d%%N)" % kv for kv in sorted(cfg.get("sizes", {}).items())),
+        cfg.get("zsize", 0), "[%s]" % "; ".join("(%d%%N, %d%%N)" % kv for kv in sorted(cfg.get("ztrig", {}).items())))
+
+
+def evaluate5(ctx, cases, name="zcases"):
+    defs = "Definition zcases : list zcase := [\n%s\n].\n" % ";\n".join(zcase_term(c) for c in cases)
+    evs = [("v_size", "bad_indices ok_size zcases 0"), ("v_size_agree", "bad_indices ok_size_agree zcases 0"),
+           ("in_spec", "bad_indices (fun k => negb (spec_class (z_case k))) zcases 0"),
+           ("hides", "bad_indices (fun k => negb (z_hides k)) zcases 0")]
+    res = coq.run_cases(ctx, name, PRE, defs, evs)
+    if res is None:
+        return None
+    return {k: coq.parse_nat_list(v) for k, v in res.items()}
+
+
+def verdict5(ctx, cases, res):
+    if res is None:
+        return
+    for i in res["v_size"][:3]:
+        ctx.violation("C07 violated: with the size filter an analysis command does not show the calls of the documented "
+                      "semantics (small functions left out, their callees kept, then the other options): %s"
+                      % " ".join(cli_opts(cases[i]["cfg"])),
+                      {"line": 5, "check": "ok_size", "zcase": case_json(cases[i]), "outputs": cases[i]["out"]}, True)
+    for i in res["v_size_agree"][:3]:
+        ctx.violation("C07 violated: the analysis commands disagree on the visible calls under the size filter: %s"
+                      % " ".join(cli_opts(cases[i]["cfg"])),
+                      {"line": 5, "check": "ok_size_agree", "zcase": case_json(cases[i]), "outputs": cases[i]["out"]}, True)
 
 
 # ---------------------------------------------------------------- line 2: record time vs replay time
@@ -727,6 +883,7 @@ def evaluate2(ctx, cases, name="rcases"):
     evs = [("mm_record", "bad_indices agree_record rcases 0"), ("mm_rec_replay", "bad_indices agree_rec_replay rcases 0"),
            ("mm_opt_replay", "bad_indices agree_opt_replay rcases 0"), ("v_rr", "bad_indices ok_rr rcases 0"),
            ("outside", "bad_indices rr_class rcases 0"),
+           ("in_sw", "bad_indices (fun k => negb (rr_class_sw k)) rcases 0"),
            ("differ", "bad_indices (fun k => list_eqb nd_eqb (rr_rec_replay k) (rr_opt_replay k)) rcases 0")]
     res = coq.run_cases(ctx, name, PRE, defs, evs)
     if res is None:
@@ -759,7 +916,7 @@ def verdict2(ctx, cases, res):
 
 
 KINDS2 = ["plain", "depth", "filter", "notrace", "fn", "fd", "time", "timetrig", "caller", "caller_time", "mix2",
-          "deptrig", "fdt", "switch"]
+          "deptrig", "fdt", "switch", "switch"]
 
 
 # ---------------------------------------------------------------- line 3: several tasks
@@ -858,6 +1015,14 @@ def gen_mcase(rng, kind):
         forest.assign_times(rng, g, t0=rng.choice([1000, 1000, 1001, 1040]), durs=(1, 2, 3, 9, 10, 11, 99, 100, 101, 200))
         fs.append(g)
     times = [set(t for c in fcalls(g) for t in (c.t0, c.t1)) for g in fs]
+    if cfg.get("range") and rng.random() < 0.5:
+        # elapsed times count from handle->time_range.first, which starts as the first record of the FIRST task:
+        # only used when that is the earliest record of the recording (the main thread, as in real data)
+        first = min(min(ts) for ts in times)
+        lo, hi = cfg["range"]
+        if first == min(times[0]) and (not lo or lo > first) and (not hi or hi > first):
+            cfg["range_first"] = first            # elapsed form, counted from the first record of all tasks
+            tags.append("range:elapsed")
     if any(times[i] & times[j] for i in range(len(fs)) for j in range(i)):
         tags.append("equal-timestamps-across-tasks")
     return cfg, fs, tags + ["tasks=%d" % ntask]
@@ -890,6 +1055,7 @@ def line3(ctx, objdir, todo):
                 shutil.rmtree(d)
             datadir.write({"syms": syms_for(cfg), "base": BASE,
                            "tasks": [{"tid": TID + i, "pid": TID, "recs": recs_of(f)} for i, f in enumerate(fs)]}, d)
+            write_dbg(d, cfg)
             out = run_commands_m(objdir, d, cfg, sp)
         except ParseError as e:
             ctx.violation("an analysis command failed or printed something unexpected (several tasks): %s" % e,
@@ -940,7 +1106,7 @@ def verdict3(ctx, cases, res):
     ctx.extra["disagreements_checked"] = ctx.extra.get("disagreements_checked", 0) + sum(len(v) for v in mm.values())
 
 
-KINDS3 = ["plain", "depth", "filter", "fn", "fd", "time", "timetrig", "caller", "hide", "deptrig", "mix", "mix2", "switch",
+KINDS3 = ["plain", "depth", "filter", "fn", "fd", "time", "timetrig", "caller", "hide", "deptrig", "mix", "mix2", "switch", "loc", "locmix",
           "range", "pltleaf", "plt"]
 
 
@@ -965,10 +1131,15 @@ def gen_program(rng):
             continue
         if count[0] < 4:
             continue
-        src = ["volatile int sink;", "#define NI __attribute__((noinline))"]
+        # function i lives in source file s<i%3>.c (for -L); one header declares everything
+        src = {"p.h": "extern volatile int sink;\n#define NI __attribute__((noinline))\n"
+               + "".join("void %s(void);\n" % NAMES[i] for i in range(1, NFUN))}
+        for j in range(3):
+            src["s%d.c" % j] = '#include "p.h"\n' + ("volatile int sink;\n" if j == 0 else "")
         for i in range(NFUN - 1, 0, -1):
-            src.append("NI void %s(void) { sink++; %s }" % (NAMES[i], " ".join("%s();" % NAMES[j] for j in calls[i])))
-        src.append("int main(void) { %s sink++; return 0; }" % " ".join("%s();" % NAMES[j] for j in calls[0]))
+            src["s%d.c" % (i % 3)] += "NI void %s(void) { sink++; %s }\n" % (
+                NAMES[i], " ".join("%s();" % NAMES[j] for j in calls[i]))
+        src["s0.c"] += "int main(void) { %s sink++; return 0; }\n" % " ".join("%s();" % NAMES[j] for j in calls[0])
         f = [tree]
         clock = [1000]
 
@@ -980,14 +1151,24 @@ def gen_program(rng):
             clock[0] += 3
             c.t1 = clock[0]
         stamp(tree)
-        return "\n".join(src) + "\n", f
+        return src, f
     raise RuntimeError("could not generate a program")
 
 
 def gen_e2e_cfg(rng, f):
     used = sorted(set(c.k for c in fcalls(f)))
     cfg = {"trig": {}}
-    kind = rng.choice(["depth", "filter", "notrace", "fn", "fd", "fnd"])
+    kind = rng.choice(["depth", "filter", "notrace", "fn", "fd", "fnd", "loc", "loc", "locd"])
+    if kind in ("loc", "locd"):
+        # -L FILE / -L FILE@hide: every function of the file gets the location trigger
+        files = {}
+        for _ in range(rng.choice([1, 1, 2])):
+            files[rng.randrange(3)] = rng.random() < 0.6
+        cfg["loc"] = {k: v for k in range(NFUN) for j, v in files.items() if k % 3 == j}
+        cfg["loc_files"] = files
+        if kind == "locd":
+            cfg["depth"] = rng.choice([1, 2, 3])
+        return kind, cfg
     if kind in ("depth", "fd", "fnd"):
         cfg["depth"] = rng.choice([1, 2, 3, max(1, fheight(f) - 1)])
     if kind in ("filter", "fn", "fd", "fnd"):
@@ -999,6 +1180,17 @@ def gen_e2e_cfg(rng, f):
             if not cfg["trig"].get(k):
                 cfg["trig"][k] = {"filter": False}
     return kind, cfg
+
+
+def e2e_opts(cfg):
+    """command line of an end-to-end option set: -L takes the real source file names"""
+    c = dict(cfg)
+    files = c.pop("loc_files", {})
+    c.pop("loc", None)
+    o = cli_opts(c)
+    for j, v in sorted(files.items()):
+        o += ["-L", "s%d.c%s" % (j, "" if v else "@hide")]
+    return o
 
 
 def parse_replay_known(out):
@@ -1034,22 +1226,25 @@ def line4(ctx, objdir, nprog, ncfg):
             raise ParseError("uftrace replay %s failed rc=%d: %s" % (" ".join(opts), rc, (out + err)[-300:]))
         return parse_replay_known(out)
     for pi in range(nprog):
-        src, f = gen_program(rng)
-        with open(os.path.join(root, "p.c"), "w") as fh:
-            fh.write(src)
+        srcs, f = gen_program(rng)
+        for name, text in srcs.items():
+            with open(os.path.join(root, name), "w") as fh:
+                fh.write(text)
+        src = "".join("/* %s */\n%s" % (n, t) for n, t in sorted(srcs.items()))
         exes = {}
         for shape, flags in (("pg", ["-pg"]), ("cyg", ["-finstrument-functions"])):
             exe = os.path.join(root, "p_%s" % shape)
-            sh(["gcc", "-O0", "-w", "-fno-builtin"] + flags + ["-o", exe, os.path.join(root, "p.c")], check=True)
+            sh(["gcc", "-O0", "-g", "-w", "-fno-builtin"] + flags + ["-o", exe] + ["s0.c", "s1.c", "s2.c"], check=True,
+               cwd=root)
             exes[shape] = exe
         for shape, exe in exes.items():
             full = os.path.join(root, "full")
             try:
-                record(exe, full, [])
+                record(exe, full, ["--srcline"])
                 base = replay(full, [])
                 for _ in range(ncfg):
                     kind, cfg = gen_e2e_cfg(rng, f)
-                    o = cli_opts(cfg)
+                    o = e2e_opts(cfg)
                     record(exe, os.path.join(root, "filt"), o)
                     cases.append({"kind": kind, "shape": shape, "cfg": cfg, "forest": f, "src": src,
                                   "rec": replay(os.path.join(root, "filt"), []), "opt": replay(full, o), "base": base})
@@ -1074,8 +1269,8 @@ def verdict4(ctx, cases, res):
     for i in res["v_e2e"][:3]:
         c = cases[i]
         ctx.violation("C07 violated end to end (%s): `record %s` + replay, `record` + `replay %s` and the documented "
-                      "selection differ" % (c["shape"], " ".join(cli_opts(c["cfg"])), " ".join(cli_opts(c["cfg"]))),
-                      {"line": 4, "program": c["src"], "shape": c["shape"], "options": cli_opts(c["cfg"]),
+                      "selection differ" % (c["shape"], " ".join(e2e_opts(c["cfg"])), " ".join(e2e_opts(c["cfg"]))),
+                      {"line": 4, "program": c["src"], "shape": c["shape"], "options": e2e_opts(c["cfg"]),
                        "record_with_options_then_replay": c["rec"], "record_then_replay_with_options": c["opt"],
                        "forest": [x.to_json() for x in c["forest"]], "cfg": cfg_json(c["cfg"])}, True)
 
@@ -1135,7 +1330,12 @@ def corpus1():
     f1 = [C(0, 1000, 2000, [C(1, 1100, 1500, [C(2, 1200, 1400, [C(3, 1250, 1300)])]), C(4, 1600, 1700)])]
     return [("corpus:graph-time-range", {"trig": {}, "range": (1200, 1650)}, f1, ["corpus:graph-time-range"]),
             ("corpus:graph-trace-on", {"trig": {0: {"trace_off": True}, 4: {"trace_on": True}}}, f1,
-             ["corpus:graph-trace-on"])]
+             ["corpus:graph-trace-on"]),
+            # be2fe34: an elapsed end of the range must close / count the calls still open (main, alpha)
+            ("corpus:elapsed-range-open-calls", {"trig": {}, "range": (1200, 1450), "range_first": 1000}, f1,
+             ["corpus:elapsed-range-open-calls", "range:elapsed"]),
+            ("corpus:elapsed-range-stop-only", {"trig": {}, "range": (0, 1650), "range_first": 1000}, f1,
+             ["corpus:elapsed-range-stop-only", "range:elapsed"])]
 
 
 def run(ctx):
@@ -1148,7 +1348,7 @@ def run(ctx):
     for key, what, cfg, f, differs in w1:
         todo.append(("witness:" + key, cfg, f, ["witness:" + key]))
     todo += corpus1()
-    n = ctx.n(8, 90)
+    n = ctx.n(6, 75)
     for kind in KINDS:
         for _ in range(n if kind != "plain" else 3):
             cfg, f, tags = gen_case(rng, kind)
@@ -1169,7 +1369,7 @@ def run(ctx):
     w2 = witnesses2()
     for key, what, cfg, f, shape in w2:
         todo.append(("witness:" + key, cfg, f, ["witness:" + key], shape))
-    n2 = ctx.n(5, 60)
+    n2 = ctx.n(4, 50)
     for kind in KINDS2:
         for i in range(n2 if kind != "plain" else 2):
             cfg, f, tags = gen_case(rng, kind, eq=(i % 3 == 0))
@@ -1182,7 +1382,8 @@ def run(ctx):
                       json.dumps([x.to_json() for x in c["forest"]])),
                  nontrivial=c["rec_replay"] != [] and len(c["records"]) != 2 * sum(x.size() for x in c["forest"]),
                  tags=["record-vs-replay", "rr:" + c["kind"], "rr:" + c["shape"]]
-                 + (["rr:in-agreement-class"] if i not in outside2 else []),
+                 + (["rr:in-agreement-class"] if i not in outside2 else [])
+                 + (["rr:in-switch-class"] if res2 and i in res2["in_sw"] else []),
                  size=sum(x.size() for x in c["forest"]),
                  sample=rcase_json(c) if i == len(w2) else None)
     verdict2(ctx, rcases, res2)
@@ -1190,7 +1391,7 @@ def run(ctx):
         report_witness(ctx, key, what, c["rec_replay"] != c["opt_replay"], {"line": 2, "rcase": rcase_json(c)})
     # ---- line 3: several tasks
     todo = []
-    n3 = ctx.n(3, 25)
+    n3 = ctx.n(3, 20)
     for kind in KINDS3:
         for _ in range(n3 if kind != "plain" else 1):
             cfg, fs, tags = gen_mcase(rng, kind)
@@ -1203,10 +1404,26 @@ def run(ctx):
         ctx.case(key=("mt", json.dumps(cfg_json(c["cfg"]), sort_keys=True),
                       json.dumps([[x.to_json() for x in f] for f in c["forests"]])),
                  nontrivial=len(c["out"]["chrome"]) != 2 * size,
-                 tags=["several-tasks", "mt:" + c["kind"]] + [t for t in c["tags"] if t.startswith(("tasks=", "equal-"))]
+                 tags=["several-tasks", "mt:" + c["kind"]] + [t for t in c["tags"] if t.startswith(("tasks=", "equal-", "range:"))]
                  + (["mt:in-spec-class"] if i in inside3 else []),
                  size=size, sample=mcase_json(c) if i == 1 else None)
     verdict3(ctx, mcases, res3)
+    # ---- line 5: size filter (no model of the code: documented semantics + agreement of the commands)
+    todo = corpus5()
+    n5 = ctx.n(1, 10)
+    for kind in KINDS_Z:
+        for _ in range(n5):
+            cfg, f, tags = gen_zcase(rng, kind)
+            todo.append(("size:" + kind, cfg, f, tags))
+    zcases = line1(ctx, objdir, sp, todo)
+    res5 = evaluate5(ctx, zcases)
+    inside5 = set(res5["in_spec"]) if res5 else set()
+    hides5 = set(res5["hides"]) if res5 else set()
+    for i, c in enumerate(zcases):
+        ctx.case(key=("size", json.dumps(cfg_json(c["cfg"]), sort_keys=True), json.dumps([x.to_json() for x in c["forest"]])),
+                 nontrivial=i in hides5, tags=c["tags"] + (["size:in-spec-class"] if i in inside5 else []),
+                 size=sum(x.size() for x in c["forest"]), sample=case_json(c) if i == 0 else None)
+    verdict5(ctx, zcases, res5)
     # ---- line 4: compiled programs, real `uftrace record`
     ecases = line4(ctx, objdir, ctx.n(1, 6), ctx.n(4, 8))
     res4 = evaluate4(ctx, ecases)
@@ -1241,6 +1458,17 @@ def replay(ctx, obj):
             ctx.case(key="replay", sample=mcase_json(c))
             ctx.log("replayed (several tasks): options", " ".join(cli_opts(cfg)), "outputs", c["out"])
         verdict3(ctx, mcases, res3)
+        return
+    zj = obj.get("zcase")
+    if zj:
+        cfg = cfg_unjson(zj["cfg"])
+        f = [Call.from_json(x) for x in zj["forest"]]
+        zcases = line1(ctx, objdir, sp, [("replay", cfg, f, [])])
+        res5 = evaluate5(ctx, zcases)
+        for c in zcases:
+            ctx.case(key="replay", sample=case_json(c))
+            ctx.log("replayed (size filter): options", " ".join(cli_opts(cfg)), "outputs", c["out"])
+        verdict5(ctx, zcases, res5)
         return
     cj = obj.get("case")
     if not cj:
